@@ -76,6 +76,24 @@ CHECKS = {
         "Attribute model in props/c18_build.py; flow names distinct by construction; items are identifiers pandas does not re-interpret.",
         "DESIGN.md C18",
     ),
+    "C19": (
+        "exploration",
+        "round-trip / content-bijection testing of exports over Hypothesis-generated systems",
+        "convert_to_dict (numpy, pandas), pickle and CSV exports of generated systems are compared key by key with the system; "
+        "pandas and CSV forms are re-imported through from_df into identical arrays; exported files are matched one-to-one to arrays "
+        "by content; the system must be unchanged; MFADefinition.to_dfs is compared with model_dump().",
+        "CSV files are read back by the harness with pandas' round-trip float parser; names distinct after sanitising by construction.",
+        "DESIGN.md C19",
+    ),
+    "C20": (
+        "exploration",
+        "Hypothesis-generated systems/arrays rendered to figures whose data is compared with a label-dict model of links and lines",
+        "The Sankey figure's link list (source/target node labels, values, labels) and the plotly / pyplot line data (subplot via axis "
+        "anchor / axes order, x and y data) of generated configurations are read from the figure objects and compared as multisets "
+        "with the model; titles, legends and colours are not inspected.",
+        "Figure-reading side (node labels, xaxis anchors, axes order) is part of the trusted base; values rounded to 9 decimals.",
+        "DESIGN.md C20",
+    ),
     "C09": (
         "exploration",
         "Hypothesis-generated DSM configurations checked against cohort-table invariants",
